@@ -23,12 +23,12 @@ const (
 
 // Oblig is one (rule, construct) obligation. Key carries no positions.
 type Oblig struct {
-	Prop   string `json:"property"`
-	Rule   string `json:"rule"`
-	Key    string `json:"key"`
-	Status Status `json:"status"`
-	Pos    string `json:"pos,omitempty"`
-	Msg    string `json:"msg,omitempty"`
+	Prop   string   `json:"property"`
+	Rule   string   `json:"rule"`
+	Key    string   `json:"key"`
+	Status Status   `json:"status"`
+	Pos    string   `json:"pos,omitempty"`
+	Msg    string   `json:"msg,omitempty"`
 	Path   []string `json:"witness,omitempty"`
 }
 
@@ -259,25 +259,25 @@ func (r *Report) Finish(info *runInfo, explanation string, assumptions []string)
 		distinct[o.Key] = true
 	}
 	cov := map[string]interface{}{
-		"explanation":         explanation,
-		"obligations":         len(r.Obs),
-		"discharged":          disch,
-		"known_findings_hit":  knownHit,
-		"violated_or_undecided": viol,
-		"undecided":           undec,
-		"evaluations":         len(r.Obs),
-		"distinct_nontrivial": len(distinct),
-		"rule":                "one obligation per (rule, construct) pair found in /repo's current source; distinct = distinct obligation keys (rule id + qualified construct, no positions)",
-		"rules":               rules,
-		"samples":             samples,
-		"packages_loaded":     info.Packages,
-		"functions_in_program": info.Functions,
+		"explanation":                explanation,
+		"obligations":                len(r.Obs),
+		"discharged":                 disch,
+		"known_findings_hit":         knownHit,
+		"violated_or_undecided":      viol,
+		"undecided":                  undec,
+		"evaluations":                len(r.Obs),
+		"distinct_nontrivial":        len(distinct),
+		"rule":                       "one obligation per (rule, construct) pair found in /repo's current source; distinct = distinct obligation keys (rule id + qualified construct, no positions)",
+		"rules":                      rules,
+		"samples":                    samples,
+		"packages_loaded":            info.Packages,
+		"functions_in_program":       info.Functions,
 		"library_functions_analysed": info.LibFns,
-		"build_configurations": info.Configs,
-		"checker_cmd":         fmt.Sprintf("/verif/bin/scrapcheck -prop %s -tier %s -repo /repo", r.Prop, info.Tier),
-		"trusted_base":        []string{"go/types type checker", "golang.org/x/tools v0.29.0 go/ssa + VTA call graph", "this checker's rule tables"},
-		"fixed_findings":      fixed,
-		"notes":               r.Notes,
+		"build_configurations":       info.Configs,
+		"checker_cmd":                fmt.Sprintf("/verif/bin/scrapcheck -prop %s -tier %s -repo /repo", r.Prop, info.Tier),
+		"trusted_base":               []string{"go/types type checker", "golang.org/x/tools v0.29.0 go/ssa + VTA call graph", "this checker's rule tables"},
+		"fixed_findings":             fixed,
+		"notes":                      r.Notes,
 	}
 	for k, v := range r.Extra {
 		cov[k] = v
